@@ -215,3 +215,13 @@ Proof. unfold wpolicy_of. now rewrite gen_writefile_replaces. Qed.
 Lemma gen_file_last_write h f p :
   read_file (run_writes (wpolicy_of gen_writefile_opens) h f) p = last_write p h (f p).
 Proof. rewrite gen_wpolicy_replace. apply replace_last_write. Qed.
+
+(** Size bounds (gen/jsonx_own.go [gen_int_literals]): every integer of at
+    least 256 that lexing/, jsonx/ and strtoken/ name - literal, constant or
+    constant expression.  The known ones are no bounds on the input: 420 is
+    the mode 0644 of WriteFile, 55296 and 57344 are the ends of the surrogate
+    range in lexEscape.  The model has no length bound anywhere; an integer
+    that is not in this list is a candidate for one, and the bigtoken stream
+    of the C07 check tries tokens of every listed size. *)
+Lemma gen_int_literals_known : gen_int_literals = [420%N; 55296%N; 57344%N].
+Proof. vm_compute. reflexivity. Qed.
